@@ -2,13 +2,14 @@
 
 from __future__ import annotations
 
-from typing import TYPE_CHECKING, cast
+from typing import TYPE_CHECKING, Any, cast
 
 import sympy
-from sympy.printing import jscode, julia_code
+from sympy.printing import julia_code
 from sympy.printing.codeprinter import CodePrinter
+from sympy.printing.jscode import JavascriptCodePrinter
+from sympy.printing.pycode import PythonCodePrinter
 from sympy.printing.rust import RustCodePrinter
-from sympy.printing.pycode import pycode
 
 from mxlpy.meta.source_tools import fn_to_sympy
 from mxlpy.types import Derived
@@ -30,6 +31,33 @@ __all__ = [
 def list_of_symbols(args: Iterable[str]) -> list[sympy.Symbol | sympy.Expr]:
     """Convert list of strings to list of symbols."""
     return [sympy.Symbol(arg) for arg in args]
+
+
+class _PythonPrinter(PythonCodePrinter):
+    """Python printer that keeps a modulo together.
+
+    sympy prints -k*Mod(x, 2) as `-k*x % 2`, which is (-k*x) % 2.
+    """
+
+    def _print_Mod(self, expr: sympy.Mod) -> str:
+        return f"({super()._print_Mod(expr)})"
+
+
+class _JsPrinter(JavascriptCodePrinter):
+    """Javascript printer that keeps a modulo together, see _PythonPrinter."""
+
+    def _print_Mod(self, expr: sympy.Mod) -> str:
+        return f"({super()._print_Mod(expr)})"
+
+
+def pycode(expr: sympy.Basic, **settings: Any) -> str:  # noqa: ANN401
+    """sympy.printing.pycode with the printer above."""
+    return cast(str, _PythonPrinter(settings).doprint(expr))
+
+
+def jscode(expr: sympy.Basic, **settings: Any) -> str:  # noqa: ANN401
+    """sympy.printing.jscode with the printer above."""
+    return cast(str, _JsPrinter(settings).doprint(expr))
 
 
 def sympy_to_inline_py(expr: sympy.Expr) -> str:
